@@ -18,6 +18,7 @@ import (
 	"os"
 	"os/exec"
 	"path/filepath"
+	"sort"
 	"strconv"
 	"strings"
 	"time"
@@ -151,6 +152,88 @@ func compileErr(err error) string {
 }
 
 func jsonText(x interface{}) string { b, _ := json.Marshal(x); return string(b) }
+
+// typedValue renders a pattern with Go's typed containers where they fit (as a Go host building a spec natively would):
+// map[string]string, []string, int; anything else stays generic, with typed children
+func typedValue(x interface{}) interface{} {
+	switch vv := x.(type) {
+	case float64:
+		if vv == float64(int(vv)) {
+			return int(vv)
+		}
+	case map[string]interface{}:
+		allStr := len(vv) > 0
+		for _, v := range vv {
+			if _, is := v.(string); !is {
+				allStr = false
+			}
+		}
+		if allStr {
+			m := map[string]string{}
+			for k, v := range vv {
+				m[k] = v.(string)
+			}
+			return m
+		}
+		m := map[string]interface{}{}
+		for k, v := range vv {
+			m[k] = typedValue(v)
+		}
+		return m
+	case []interface{}:
+		allStr := len(vv) > 0
+		for _, v := range vv {
+			if _, is := v.(string); !is {
+				allStr = false
+			}
+		}
+		if allStr {
+			a := []string{}
+			for _, v := range vv {
+				a = append(a, v.(string))
+			}
+			return a
+		}
+		a := []interface{}{}
+		for _, v := range vv {
+			a = append(a, typedValue(v))
+		}
+		return a
+	}
+	return x
+}
+
+// withTypedPatterns: every pattern as typed Go data; under patternSyntax json (mixed = true) every other pattern is JSON
+// text instead (the syntax allows both: text is parsed, anything else is taken as it is)
+func withTypedPatterns(s *core.Spec, mixed bool) *core.Spec {
+	if mixed {
+		s.PatternSyntax = "json"
+	}
+	k := 0
+	names := []string{}
+	for name := range s.Nodes {
+		names = append(names, name)
+	}
+	sort.Strings(names)
+	for _, name := range names {
+		n := s.Nodes[name]
+		if n.Branches == nil {
+			continue
+		}
+		for _, b := range n.Branches.Branches {
+			k++
+			if mixed && k%2 == 0 {
+				b.Pattern = jsonText(b.Pattern)
+			} else if _, bare := b.Pattern.(string); !bare || !mixed {
+				// (a bare string under the JSON syntax is JSON text by definition)
+				b.Pattern = typedValue(b.Pattern)
+			} else {
+				b.Pattern = jsonText(b.Pattern)
+			}
+		}
+	}
+	return s
+}
 
 // withJSONPatterns rewrites every branch pattern as JSON text under patternSyntax json
 func withJSONPatterns(s *core.Spec) *core.Spec {
@@ -298,6 +381,13 @@ func one(id int, dir string) O {
 		var sjp core.Spec
 		lerr = json.Unmarshal(jsp, &sjp)
 		add("json-json-patterns", &sjp, lerr, trap(func() error { return sjp.Compile(ctx, nil, true) }))
+	}
+	// patterns as typed Go data (no syntax), and typed data mixed with JSON text under the JSON syntax
+	if unknown != "patternSyntax" {
+		st := withTypedPatterns(mk(), false)
+		add("go-typed-patterns", st, nil, trap(func() error { return st.Compile(ctx, nil, true) }))
+		sm := withTypedPatterns(mk(), true)
+		add("go-json-syntax-typed-and-text", sm, nil, trap(func() error { return sm.Compile(ctx, nil, true) }))
 	}
 	// a compiled specification serialised and reloaded
 	sc := mk()
